@@ -1,4 +1,5 @@
 import O4.Lemmas.StartUp
+import O4.Lemmas.TicketJson
 /-!
 # C18 — a bridge keeps its identity across restarts and crashes; bridge lines round-trip
 
@@ -311,6 +312,14 @@ example : (start (exCfg true) [] Args.empty exFresh).out
 
 /-! ## Crashes -/
 
+/-- **the crash states are exactly the crash points**: a directory is among the enumerated crash
+    states of an op list iff it is what a kill leaves after `k` completed calls with, if `j > 0`,
+    exactly `j` bytes (fewer than all) of the write in flight — every prefix, every torn length,
+    nothing else.  (`crashAt` is what the correspondence check materialises.) -/
+theorem crash_states_iff (d : Dir) (ops : List Op) (s : Dir) :
+    s ∈ crashStates d ops ↔ ∃ k j, crashAt d ops k j = some s :=
+  ⟨crashStates_sound d ops s, fun ⟨k, j, h⟩ => crashAt_mem d ops k j s h⟩
+
 /-- a state-file content is `good` for identity `i0`: it loads and validates to the same node
     ID, private key and seed (the IAT mode may differ) -/
 def goodFor (i0 : Ident) (c : Bytes) : Bool :=
@@ -617,6 +626,41 @@ theorem ticket_checkpoint_old_or_new (store : List Ticket) (op : TOp) (d : Dir) 
     · simp only [hany] at hs ⊢
       simp only [Bool.false_eq_true, if_false, crashStates, List.mem_singleton] at hs
       subst hs; exact Or.inl rfl
+
+/-- **a complete ticket file loads back to exactly the stored (well-formed, unexpired) tickets**,
+    before and after the repair -/
+theorem ticket_store_reloads (fx : Bool) (now : Nat) (d : Dir) (ts : List Ticket)
+    (hw : ∀ t ∈ ts, WFTicket t) (hv : ∀ t ∈ ts, ktValid t.kt = true ∧ ticketValid now t = true)
+    (hd : get d tfN = some (encTickets ts)) : loadTickets fx now d = some ts := by
+  unfold loadTickets
+  simp only [tfN] at hd
+  rw [hd]
+  simp only [parseTickets_enc ts hw]
+  congr 1
+  apply List.filter_eq_self.mpr
+  intro t ht
+  simp [hv t ht]
+
+/-- hence, with the atomic checkpoint, a crash at any point of a checkpoint forgets nothing: the
+    next load yields the store before the operation or the store after it -/
+theorem ticket_crash_old_or_new_store (now : Nat) (d : Dir) (old : List Ticket) (op : TOp)
+    (hwo : ∀ t ∈ old, WFTicket t) (hvo : ∀ t ∈ old, ktValid t.kt = true ∧ ticketValid now t = true)
+    (hwn : ∀ t ∈ (ticketStep true old op).1, WFTicket t)
+    (hvn : ∀ t ∈ (ticketStep true old op).1, ktValid t.kt = true ∧ ticketValid now t = true)
+    (hd : get d tfN = some (encTickets old)) :
+    ∀ s ∈ crashStates d (ticketStep true old op).2,
+      loadTickets true now s = some old ∨ loadTickets true now s = some (ticketStep true old op).1 := by
+  intro s hs
+  rcases ticket_checkpoint_old_or_new old op d s hs with h | h
+  · exact Or.inl (ticket_store_reloads true now s old hwo hvo (h.trans hd))
+  · exact Or.inr (ticket_store_reloads true now s _ hwn hvn h)
+
+def exTicket : Ticket := ⟨ascii "192.0.2.1:443", List.replicate 231 65 ++ [61], ascii "1700000000"⟩
+
+example : WFTicket exTicket ∧ ktValid exTicket.kt = true ∧ ticketValid 1700000100 exTicket = true :=
+  ⟨⟨by decide, by decide +kernel, by decide⟩, by decide +kernel, by decide⟩
+
+example : loadTickets false 1700000100 [(tfN, encTickets [exTicket])] = some [exTicket] := by decide +kernel
 
 /-- **the in-place checkpoint (code before the repair) blocks start-up**: storing a ticket passes
     through a crash state (killed between `open(O_TRUNC)` and `write`) from which
